@@ -164,3 +164,163 @@ var ruleNarrow = &Rule{
 }
 
 func init() { register(ruleRuneErr, ruleNarrow) }
+
+// R-TOKENRANGE (C03, C04): a character is its own token only below the range
+// in which goyacc numbers the named tokens.
+//
+// The generated parser gives the named tokens (TO_P, ANY_P, …) numbers from
+// pathPrivate = 57344 = U+E000 upwards, in the Unicode private use area, and
+// treats any other number as the character it is. A lexer that passes an
+// unrecognised character through as its own token therefore turns a raw
+// U+E002 in the input into the keyword `to`. Every token value the lexer
+// returns is a constant, or the result of another scanning method, or a
+// character that the branch facts bound below pathPrivate.
+var ruleTokenRange = &Rule{
+	Name: "R-TOKENRANGE", NeedSSA: true,
+	Doc: "every token value returned by the lexer's Lex method and by the scanning methods whose first result it passes on is a constant, the first result of another such method, or a character bounded below pathPrivate (the first named-token number, U+E000) by the branch facts at the return — equal to a constant, or less than a constant ≤ pathPrivate: a raw private-use character must not be read as the keyword whose token number it happens to be",
+	Run: func(p *Prog) *RuleOut {
+		out := newOut("R-TOKENRANGE")
+		pk := p.Pkgs[pkgParser]
+		priv := int64(0)
+		if c, ok := pk.Types.Scope().Lookup("pathPrivate").(*types.Const); ok {
+			priv = constOf(c)
+		}
+		if priv == 0 {
+			out.undecided("pathPrivate", "-", "", "anchor unresolved: constant pathPrivate of the generated parser")
+			return out
+		}
+		lexT, _ := lookupNamed(pk.Types, "lexer")
+		var lex *ssa.Function
+		for fn := range p.AllFns {
+			if fnPkgPath(fn) == pkgParser && fn.Blocks != nil && fn.Name() == "Lex" && fn.Signature.Recv() != nil && namedOf(fn.Signature.Recv().Type()) == lexT {
+				lex = fn
+			}
+		}
+		if lex == nil {
+			out.undecided("Lex", "-", "", "anchor unresolved: (*lexer).Lex")
+			return out
+		}
+		isRune := func(t types.Type) bool { b, ok := t.Underlying().(*types.Basic); return ok && b.Kind() == types.Int32 }
+		scope := map[*ssa.Function]bool{}
+		var order []*ssa.Function
+		var addFn func(fn *ssa.Function)
+		bounded := func(v ssa.Value, fs []Fact) bool {
+			for _, f := range fs {
+				bo, ok := f.Cond.(*ssa.BinOp)
+				if !ok || !sameValue(bo.X, v) {
+					continue
+				}
+				k, ok := constInt(bo.Y)
+				if !ok {
+					continue
+				}
+				switch {
+				case bo.Op == token.EQL && f.Truth && k < priv,
+					bo.Op == token.LSS && f.Truth && k <= priv,
+					bo.Op == token.LEQ && f.Truth && k < priv,
+					bo.Op == token.GEQ && !f.Truth && k <= priv,
+					bo.Op == token.GTR && !f.Truth && k < priv:
+					return true
+				}
+			}
+			return false
+		}
+		nret := 0
+		var judge func(fn *ssa.Function, v ssa.Value, fs []Fact, depth int) string
+		judge = func(fn *ssa.Function, v ssa.Value, fs []Fact, depth int) string {
+			if depth > 6 {
+				return "too deep"
+			}
+			if bounded(v, fs) {
+				return ""
+			}
+			switch x := v.(type) {
+			case *ssa.Const:
+				return ""
+			case *ssa.Convert:
+				return judge(fn, x.X, fs, depth+1)
+			case *ssa.Extract:
+				if c, ok := x.Tuple.(*ssa.Call); ok && x.Index == 0 {
+					if sc := c.Call.StaticCallee(); sc != nil && fnPkgPath(sc) == pkgParser && sc.Blocks != nil && sc.Signature.Results().Len() == 2 && isRune(sc.Signature.Results().At(0).Type()) {
+						addFn(sc)
+						return ""
+					}
+				}
+			case *ssa.Parameter:
+				// a token handed in by the callers (scanString(STRING_P)): fine if
+				// every caller passes a constant
+				if n := p.CG.Nodes[fn]; n != nil && len(n.In) > 0 {
+					all := true
+					idx := paramIndex(x)
+					for _, e := range n.In {
+						c, ok := e.Site.(*ssa.Call)
+						if !ok || c.Call.StaticCallee() != fn || idx >= len(c.Call.Args) {
+							all = false
+							break
+						}
+						if _, isC := c.Call.Args[idx].(*ssa.Const); !isC {
+							all = false
+						}
+					}
+					if all {
+						return ""
+					}
+				}
+			case *ssa.Call:
+				// a classifier returning the token (identToken): judged by its own returns
+				if sc := x.Call.StaticCallee(); sc != nil && fnPkgPath(sc) == pkgParser && sc.Blocks != nil && sc.Signature.Results().Len() == 1 && isRune(sc.Signature.Results().At(0).Type()) && sc.Name() != "next" && sc.Name() != "peek" {
+					addFn(sc)
+					return ""
+				}
+			case *ssa.Phi:
+				for i, e := range x.Edges {
+					pred := x.Block().Preds[i]
+					efs := edgeFacts(pred, succIndex(pred, x.Block()))
+					if bounded(e, efs) {
+						continue
+					}
+					if why := judge(fn, e, efs, depth+1); why != "" {
+						return why
+					}
+				}
+				return ""
+			}
+			if bounded(v, fs) {
+				return ""
+			}
+			return "the character " + v.Name() + " is returned as its own token with nothing bounding it below U+E000"
+		}
+		addFn = func(fn *ssa.Function) {
+			if scope[fn] {
+				return
+			}
+			scope[fn] = true
+			order = append(order, fn)
+		}
+		addFn(lex)
+		for i := 0; i < len(order); i++ {
+			fn := order[i]
+			bad := ""
+			for _, r := range expandedReturns(fn) {
+				if len(r.Results) == 0 {
+					continue
+				}
+				nret++
+				if why := judge(fn, r.Results[0], r.Facts, 0); why != "" && bad == "" {
+					bad = why + " (return at " + p.pos(r.Instr.Pos()) + ")"
+				}
+			}
+			key := fnName(fn) + ": token values"
+			if bad == "" {
+				out.ok(key, p.pos(fn.Pos()), fnName(fn), "constants, results of other scanning methods, or characters below U+E000")
+			} else {
+				out.viol(key, p.pos(fn.Pos()), fnName(fn), bad+fmt.Sprintf(": a raw character from U+E000 on (the generated parser numbers its named tokens from %d) is read as the keyword with that number — `$[1 \\ue002 2]` parses as `$[1 to 2]`", priv))
+			}
+		}
+		out.Counts["token_returns_examined"] = nret
+		out.Floors["token_returns_examined"] = 10
+		return out
+	},
+}
+
+func init() { register(ruleTokenRange) }
